@@ -99,6 +99,15 @@ pub fn c09(g: &mut G) {
             g.emit(format!("spec {}", hex(&b)));
         }
     }
+    // the same bytes must reach sinks that accept writes piecewise (wide nodes: the 256-byte index)
+    for n in [33usize, 256] {
+        let keys = fanout_keys(n, true, true, true);
+        let kv = values(&keys, 1, &mut g.rng);
+        for cap in [1usize, 100, 255] {
+            let script: Vec<String> = (0..3000).map(|_| format!("T{}", cap)).collect();
+            g.emit(format!("sink 0 default {} - _ {}", script.join(","), show_calls(&ins_calls(&kv))));
+        }
+    }
     // a file large enough for 3-byte deltas (64 KiB+)
     let mut rng = Rng::new(g.rng.next());
     let words = random_words(&mut rng, if g.thorough { 60_000 } else { 25_000 }, b"abcdefghijklmnop", 16);
@@ -250,6 +259,12 @@ pub fn c13(g: &mut G) {
     g.emit(format!("!membuild set {} {} prefix 0", n1, 2 * n1));
     g.emit(format!("!membuild map {} {} prefix 4096", n1, 2 * n1));
     g.emit(format!("!membuild set {} {} fixed 1", n1, 2 * n1));
+    // unboundedly many distinct nodes with more than 32 transitions (sets and maps)
+    // (the cache saturates later with wide nodes: measured plateau from ≈ 3M keys)
+    g.emit(format!("!membuild set {} {} wide 0", 3 * n1, 6 * n1));
+    if g.thorough {
+        g.emit(format!("!membuild map {} {} wide 0", 3 * n1, 6 * n1));
+    }
     // model footprint vs hook footprint on small inputs
     let sets = key_sets(g);
     for (i, (_, keys)) in sets.iter().enumerate() {
@@ -266,6 +281,7 @@ pub fn c14(g: &mut G) {
     for k in [2usize, 4, 8] {
         g.emit(format!("!memstream {} {} {}", n1, n2, k));
     }
+    g.emit("!freshopen".to_string());
     // model: stack depth / buffer length invariants are theorem-only; the
     // streams themselves are exercised for correspondence
     let sets = key_sets(g);
@@ -301,6 +317,27 @@ pub fn c15(g: &mut G) {
         if i % 6 == 0 {
             g.emit(format!("!par 0 {}", show_calls(&ins)));
         }
+    }
+    // rejected calls (duplicates with smaller or larger values, smaller keys) between accepted ones
+    for i in 0..(if g.thorough { 300 } else { 60 }) {
+        let mut rng = Rng::new(g.rng.next());
+        let words = random_words(&mut rng, 30, b"ab", 4);
+        let mut calls = vec![];
+        for (j, w) in words.iter().enumerate() {
+            calls.push(Call::Ins(w.clone(), 1000 - 7 * j as u64 + rng.below(5)));
+            if rng.chance(1, 2) {
+                let back = rng.below(j as u64 + 1) as usize;
+                calls.push(Call::Ins(words[j - back].clone(), rng.below(2000)));
+            }
+        }
+        g.emit(build_line(if i % 2 == 0 { "map" } else { "raw" }, 0, if i % 2 == 0 { "default" } else { GEOMS[i % 7] }, "seq", &calls));
+    }
+    // the same bytes through a sink that takes at most 64 bytes per call (wide nodes)
+    for n in [32usize, 33, 40] {
+        let keys = fanout_keys(n, true, false, true);
+        let kv = values(&keys, 1, &mut g.rng);
+        let script: Vec<String> = (0..2000).map(|_| "T64".to_string()).collect();
+        g.emit(format!("sink 0 default {} - _ {}", script.join(","), show_calls(&ins_calls(&kv))));
     }
     // enough distinct nodes to overflow cache buckets (evictions): threads / processes must still agree
     let mut rng = Rng::new(g.rng.next());
@@ -344,6 +381,10 @@ pub fn c16(g: &mut G) {
         qs.dedup();
         for (j, q) in qs.iter().enumerate() {
             g.emit(format!("getkey {} {}", q, if j % 4 == 0 { "7a7a" } else { "_" }));
+            if j % 16 == 1 {
+                // a caller buffer longer than the whole FST
+                g.emit(format!("getkey {} {}", q, "5a".repeat(600)));
+            }
         }
     }
 }
